@@ -191,7 +191,20 @@ class PlaceholderMaker:
                     # Yup
                     next_seg = segments.pop(0)
                     new_text = ""
-                    while next_seg != entry.close_ph:
+                    # Marked copies of one element share their closing
+                    # placeholder and can end up nested: pair each
+                    # opening placeholder with its own closing one.
+                    depth = 0
+                    while next_seg != entry.close_ph or depth:
+                        if next_seg == entry.close_ph:
+                            depth -= 1
+                        elif self.is_placeholder(next_seg):
+                            inner = self.placeholder2tag[next_seg]
+                            if (
+                                inner.ttype == T_OPEN
+                                and inner.close_ph == entry.close_ph
+                            ):
+                                depth += 1
                         new_text += next_seg
                         next_seg = segments.pop(0)
                     element.text = new_text or None
